@@ -10,6 +10,7 @@ import (
 	"sync"
 	"sync/atomic"
 	"syscall"
+	"time"
 	"unsafe"
 )
 
@@ -30,6 +31,8 @@ type ChildArgs struct {
 }
 
 const slotSize = 16
+
+var slowLog = os.Getenv("VERIF_SLOW") == "1"
 
 func mmapFile(path string, size int) ([]byte, error) {
 	f, err := os.OpenFile(path, os.O_RDWR|os.O_CREATE, 0o644)
@@ -149,6 +152,27 @@ func RunChild(p *Property, a ChildArgs) int {
 		chunk = 4096
 	}
 	states := make([]*workerState, workers)
+	// A single-worker child runs its indices in order and checkpoints its
+	// partial result, so that after a process-fatal case the supervisor can
+	// resume behind it instead of starting the shard again.
+	ckptPath := fmt.Sprintf("%s/%s.%d.ckpt.json", a.Work, a.Stream, a.Shard)
+	lastCkpt := time.Now()
+	checkpoint := func(ws *workerState, nextIdx int) {
+		if workers != 1 || a.Replay || a.Only >= 0 || time.Since(lastCkpt) < time.Second {
+			return
+		}
+		lastCkpt = time.Now()
+		r := &Result{Stream: a.Stream, Cases: ws.cases, Evaluations: ws.evals, Counters: ws.counters,
+			Inconclusive: ws.inconclusive, Samples: ws.samples, Extra: ws.extra, Next: nextIdx}
+		for _, v := range ws.violations {
+			r.Violations = append(r.Violations, v)
+		}
+		if b, err := json.Marshal(r); err == nil {
+			if os.WriteFile(ckptPath+".tmp", b, 0o644) == nil {
+				os.Rename(ckptPath+".tmp", ckptPath)
+			}
+		}
+	}
 	var wg sync.WaitGroup
 	for w := 0; w < workers; w++ {
 		ws := newWorkerState()
@@ -177,10 +201,20 @@ func RunChild(p *Property, a ChildArgs) int {
 						binary.LittleEndian.PutUint64(slot[0:8], uint64(i)+1)
 						binary.LittleEndian.PutUint64(slot[8:16], 1)
 					}
+					var t0 time.Time
+					if slowLog {
+						t0 = time.Now()
+					}
 					runCase(p, st, a, int(i), n, shared, ws, bm)
+					if slowLog {
+						if d := time.Since(t0); d > 200*time.Millisecond {
+							fmt.Fprintf(os.Stderr, "SLOW %s[%d] %v\n", st.Name, i, d)
+						}
+					}
 					if slot != nil {
 						binary.LittleEndian.PutUint64(slot[8:16], 0)
 					}
+					checkpoint(ws, int(i)+1)
 				}
 			}
 		}(w)
